@@ -341,10 +341,67 @@ pub mod blake3 {
 
     pub const BLOCK_LEN: usize = 64;
 
-    // only stored in `Args` (never touched by the functions of this unit)
+    // blake3::Hasher as seen by b3sum's hash_path: a mode (key / flags) and the bytes absorbed so far. ASSUMED here, each
+    // clause being what the hasher / io / xof units VERIFY on the real crate (C02, C10, C11, C03): clone copies the state;
+    // update_reader(r) absorbs exactly the bytes r yields up to EOF or fails; update_mmap_rayon(path) absorbs exactly
+    // the file's bytes or fails; finalize_xof is a pure query returning a reader at position 0 on the stream of
+    // (mode, absorbed bytes); set_position moves the reader only.
     #[verifier::external_body]
     pub struct Hasher {
         _p: u8,
+    }
+
+    pub uninterp spec fn sp_stream_id(mode: int, absorbed: Seq<u8>) -> int;
+
+    impl Hasher {
+        pub uninterp spec fn mode(&self) -> int;
+
+        pub uninterp spec fn absorbed(&self) -> Seq<u8>;
+
+        #[verifier::external_body]
+        pub fn vf_update_reader<R: crate::VfSource>(&mut self, reader: R) -> (r: crate::VfResult<()>)
+            ensures
+                final(self).mode() == old(self).mode(),
+                match r {
+                    Ok(_) => reader.src_bytes() matches Some(b) && final(self).absorbed() == old(self).absorbed() + b,
+                    Err(_) => reader.src_bytes() is None,
+                },
+        {
+            unimplemented!()
+        }
+
+        #[verifier::external_body]
+        pub fn vf_update_mmap_rayon(&mut self, path: &std::path::Path) -> (r: crate::VfResult<()>)
+            ensures
+                final(self).mode() == old(self).mode(),
+                match r {
+                    Ok(_) => crate::sp_file_bytes(crate::sp_path_lossy(path)) matches Some(b) && final(self).absorbed()
+                        == old(self).absorbed() + b,
+                    Err(_) => crate::sp_file_bytes(crate::sp_path_lossy(path)) is None,
+                },
+        {
+            unimplemented!()
+        }
+
+        #[verifier::external_body]
+        pub fn finalize_xof(&self) -> (o: OutputReader)
+            ensures
+                o.id() == sp_stream_id(self.mode(), self.absorbed()),
+                o.pos() == 0,
+        {
+            unimplemented!()
+        }
+    }
+
+    impl Clone for Hasher {
+        #[verifier::external_body]
+        fn clone(&self) -> (r: Hasher)
+            ensures
+                r.mode() == self.mode(),
+                r.absorbed() == self.absorbed(),
+        {
+            unimplemented!()
+        }
     }
 
     // OutputReader: a stream identity and a position. `fill` is the contract the `xof` unit (C03) VERIFIES on the
@@ -359,6 +416,15 @@ pub mod blake3 {
         pub uninterp spec fn id(&self) -> int;
 
         pub uninterp spec fn pos(&self) -> int;
+
+        #[verifier::external_body]
+        pub fn set_position(&mut self, position: u64)
+            ensures
+                final(self).id() == old(self).id(),
+                final(self).pos() == position,
+        {
+            unimplemented!()
+        }
 
         #[verifier::external_body]
         pub fn fill(&mut self, buf: &mut [u8])
@@ -541,6 +607,86 @@ pub mod rayon_core {
 pub fn vf_process_exit(code: i32) -> (r: VfResult<()>)
     ensures
         r is Ok <==> code == 0,
+{
+    unimplemented!()
+}
+
+// ---- the inputs of hash_path (C12): stdin, files ------------------------------------------------------------
+// sp_file_bytes(path) / sp_stdin_bytes(): the bytes reading the named file / standard input to EOF yields during this
+// run, None if it cannot be opened or a read fails. ASSUMED: File::open, io::stdin().lock() and the mmap route see
+// the same unchanging bytes.
+pub uninterp spec fn sp_file_bytes(path: Seq<char>) -> Option<Seq<u8>>;
+
+pub uninterp spec fn sp_stdin_bytes() -> Option<Seq<u8>>;
+
+pub trait VfSource {
+    spec fn src_bytes(&self) -> Option<Seq<u8>>;
+}
+
+#[verifier::external_body]
+pub struct File {
+    _p: u8,
+}
+
+impl File {
+    pub uninterp spec fn content(&self) -> Option<Seq<u8>>;
+
+    #[verifier::external_body]
+    pub fn open(path: &std::path::Path) -> (r: VfResult<File>)
+        ensures
+            match r {
+                Ok(f) => f.content() == sp_file_bytes(sp_path_lossy(path)),
+                Err(_) => sp_file_bytes(sp_path_lossy(path)) is None,
+            },
+    {
+        unimplemented!()
+    }
+}
+
+impl VfSource for File {
+    open spec fn src_bytes(&self) -> Option<Seq<u8>> {
+        self.content()
+    }
+}
+
+pub mod io {
+    use vstd::prelude::*;
+    use crate::*;
+
+    #[verifier::external_body]
+    pub struct Stdin {
+        _p: u8,
+    }
+
+    #[verifier::external_body]
+    pub struct StdinLock {
+        _p: u8,
+    }
+
+    impl VfSource for StdinLock {
+        open spec fn src_bytes(&self) -> Option<Seq<u8>> {
+            sp_stdin_bytes()
+        }
+    }
+
+    #[verifier::external_body]
+    pub fn stdin() -> Stdin {
+        unimplemented!()
+    }
+
+    impl Stdin {
+        #[verifier::external_body]
+        pub fn lock(&self) -> StdinLock {
+            unimplemented!()
+        }
+    }
+}
+
+// `path == Path::new("-")`
+#[verifier::external_body]
+pub fn vf_path_is_dash(path: &std::path::Path) -> (r: bool)
+    ensures
+        r == (sp_path_lossy(path) == "-"@),
 {
     unimplemented!()
 }
